@@ -36,12 +36,14 @@ def flags_rich(g: int, h: int, bx: int, x: int, y: int, sh: int, z: int, k: int,
 
 
 @harness
-def flags_dag(v0: int, v1: int, v2: int, z: int, g: int, p1_1: int, p2_1: int, p1_2: int, p2_2: int, T2: bool,
-              mask: int, q1: int, t1: int, kf: int, q2: int, t2: int) -> bool:
-    mask, q1, t1, kf, q2, t2 = pick(mask, 0, 7), pick(q1, 0, 2), pick(t1, 0, 1), pick(kf, -1, 2), pick(q2, 0, 2), pick(t2, 0, 1)
+def flags_dag(v0: int, v1: int, v2: int, z: int, g: int, z2: int, g2: int, p1_1: int, p2_1: int, p1_2: int, p2_2: int, T2: bool,
+              mask: int, q1: int, t1: int, kf: int, q2: int, t2: int, zr: int) -> bool:
+    mask, q1, t1, kf, q2, t2, zr = pick(mask, 0, 7), pick(q1, 0, 2), pick(t1, 0, 1), pick(kf, -1, 2), pick(q2, 0, 2), pick(t2, 0, 1), pick(zr, 0, 2)
     cached = [not (mask >> k) & 1 for k in range(N)]
     label("uncached=%s" % [k for k in range(N) if not cached[k]])
-    d = Dag(N, cached=cached)
+    zreaders = ([True] * N, [True, False, False], [False, True, False])[zr]     # who reads Sub.z: everybody / only c0 / only c1
+    label("Sub.z read by %s" % ("every cells", "c0 only", "c1 only")[zr])
+    d = Dag(N, cached=cached, zreaders=zreaders)
     with notrace():
         d.S.new_cells("ul", formula="lambda lst: len(lst) + v0", is_cached=False)
     d.bind([v0, v1, v2], [-1, p1_1, p1_2], [-1, p2_1, p2_2], [False, False, T2], z, g)
@@ -70,6 +72,20 @@ def flags_dag(v0: int, v1: int, v2: int, z: int, g: int, p1_1: int, p2_1: int, p
                 sane = all(x[0] != kf for x in done)
             if not check(sane, "flipping the flag discards the cells' own values"):
                 return False
+    # ---- a reference every cells reads through an attribute path (Sub.z) and one read by name (g) change:
+    #      invalidation must reach every held value computed through any chain of uncached cells
+    for which in (0, 1):
+        label("edit %s" % ("Sub.z" if which == 0 else "g"))
+        if which == 0:
+            d.Sub.z = z2
+            d.z = z2
+        else:
+            d.m.g = g2
+            d.g = g2
+        for (q, t) in ((q1, t1), (q2, t2)):
+            r = call(d.cells[q], t)
+            if not check(r[0] == "ok" and r[1] == d.val(q, t), "value after changing %s under this flag assignment" % ("Sub.z" if which == 0 else "g"), lambda: (r, d.val(q, t))):
+                return False
     r = call(d.S.cells["ul"], [1, 2, 3])
     return check(r[0] == "ok" and r[1] == 3 + v0, "uncached cells accept an unhashable argument", lambda: r)
 
@@ -92,7 +108,7 @@ def _runs(d, q, t, done):
 
 ORDER9 = [0, 1, 2, 3, 7, 9, 12, 13, 14, 24, 29, 23, 5, 27, 28]
 _V = dict(g=10, h=20, bx=3, x=1, y=2, sh=30, z=4, k=5)
-_NAT = dict(v0=1, v1=2, v2=3, z=4, g=5, p1_1=0, p2_1=-1, p1_2=1, p2_2=0, T2=True)
+_NAT = dict(v0=1, v1=2, v2=3, z=4, g=5, z2=40, g2=50, p1_1=0, p2_1=-1, p1_2=1, p2_2=0, T2=True)
 QUICK = _os.environ.get("VERIF_TIER", "quick") == "quick"
 
 
@@ -105,7 +121,7 @@ def _parts_rich(tier, seed):
 
 def _parts_dag(tier, seed):
     if tier == "quick":
-        return product(mask=list(range(8)), q1=[2], t1=[1], kf=[-1, 1], t2=[1])
+        return product(mask=list(range(8)), q1=[2], t1=[1], kf=[-1, 1], t2=[1], zr=[0]) + product(mask=list(range(8)), q1=[2], t1=[1], kf=[-1], t2=[1], zr=[1])
     return product(mask=list(range(8)), q1=[2, 1], t1=[1, 0], kf=[-1, 0, 1, 2])
 
 
@@ -116,10 +132,10 @@ QUERIES = [
                                "history": "[eval all]? ; edit(v) ; observe all; compared with a fresh all-cached model that only saw the edit"},
           outside=["flags on cells outside the five", "histories of more than one edit (C02 covers pairs with the default flags)"]),
     Query("flags_dag", flags_dag,
-          pre=dag_pre(N) + ["0 <= mask < 8", "0 <= q1 < 3", "0 <= t1 <= 1", "-1 <= kf < 3", "0 <= q2 < 3", "0 <= t2 <= 1"],
+          pre=dag_pre(N) + ["0 <= mask < 8", "0 <= q1 < 3", "0 <= t1 <= 1", "-1 <= kf < 3", "0 <= q2 < 3", "0 <= t2 <= 1", "0 <= zr <= 2"],
           partitions=_parts_dag,
-          natives=[dict(_NAT, mask=m, q1=2, t1=1, kf=kf, q2=q2, t2=1) for (m, kf, q2) in ((0, -1, 1), (2, 1, 2), (7, 0, 2), (5, 2, 0), (1, 1, 1))],
-          bounds=lambda tier: {"cells": N, "masks": "all 8", "requests": 2, "flag_flip_between": "none or one cells", "dag": "pointers symbolic"},
+          natives=[dict(_NAT, mask=m, q1=2, t1=1, kf=kf, q2=q2, t2=1, zr=zr) for (m, kf, q2, zr) in ((0, -1, 1, 0), (2, 1, 2, 1), (7, 0, 2, 2), (5, 2, 0, 0), (1, 1, 1, 1), (3, -1, 2, 1), (6, -1, 2, 2))] + [dict(_NAT, p2_2=-1, mask=3, q1=2, t1=1, kf=-1, q2=2, t2=1, zr=1)],
+          bounds=lambda tier: {"cells": N, "masks": "all 8", "requests": 2, "flag_flip_between": "none or one cells", "then": "Sub.z (attribute path) and g (by name) re-assigned, both requests repeated", "dag": "pointers symbolic"},
           outside=["N > 3"]),
 ]
 BUDGET = {"quick": 420, "thorough": 1200}
